@@ -45,27 +45,40 @@ def _case(draw):
                       else draw(build.frame_body(moving=False, rotating=False)))
         if bs[0]["kind"] == "frame" and bs[1]["kind"] == "frame":
             bs[1] = zero_u(draw(build.rigid_body()))
-        d = np.array(draw(gen.unit_vec3())) * draw(gen.f(1.0, 4.0))
+        # distance of the two points: of order one, or (micro-scale elements, models measured in km) down to 1e-7
+        tiny = draw(st.integers(0, 4)) == 0
+        d = np.array(draw(gen.unit_vec3())) * (10.0 ** draw(gen.f(-7.0, -1.0)) if tiny else draw(gen.f(1.0, 4.0)))
         for b, sh in zip(bs, (-0.5 * d, 0.5 * d)):
             if b["kind"] == "frame":
                 b["motion"]["c0"] = sh.tolist()
             else:
                 b["r"] = sh.tolist()
-        off = draw(st.booleans())
+        off = draw(st.booleans()) and not tiny
         spec["tpi"] = {"B1": draw(gen.vec3(-2, -0.7)) if off else [0.0] * 3, "B2": draw(gen.vec3(-2, -0.7)) if off else [0.0] * 3}
         if draw(st.integers(0, 3)) == 0:
             # the second point sits on a cross-section of a Cosserat rod (any formulation, 1-3 elements)
             from harness import rodbuild
             rs = draw(rodbuild.rod_spec(max_nel=3, allow_constraints=False))
-            rs["r0"] = (0.5 * d + np.array(rs["r0"]) * 0.3).tolist()
+            rs["r0"] = (0.5 * d + np.array(rs["r0"]) * (0.0 if tiny else 0.3)).tolist()
             bs[1] = {"kind": "rod", "rod": rs}
             spec["tpi"]["xi2"] = draw(st.sampled_from([0.0, 1.0, 0.5, draw(gen.f(0.0, 1.0))]))
         spec["bodies"] = bs
     else:
-        b1 = draw(st.one_of(build.rigid_body(), build.frame_body(moving=False, rotating=False)))
+        b1 = draw(st.one_of(build.rigid_body(), build.frame_body(moving=False, rotating=False),
+                            build.frame_body(moving=draw(st.booleans()), rotating=True)))
         if b1["kind"] == "rigid":
             zero_u(b1)
-        spec["bodies"] = [b1, zero_u(draw(build.rigid_body()))]
+        b2 = zero_u(draw(build.rigid_body()))
+        if b1["kind"] == "frame" and "axis" in b1["motion"]:
+            # the frame turns (prescribed motion); body 2 moves with it, so that the relative velocity in the joint is zero
+            f_ = build.motion_functions(b1["motion"])
+            t0_ = spec["t0"]
+            A_ = f_["A"](t0_)
+            S_ = f_["A_t"](t0_) @ A_.T
+            om_ = np.array([S_[2, 1], S_[0, 2], S_[1, 0]])
+            b2["v"] = (f_["r_t"](t0_) + np.cross(om_, np.array(b2["r"]) - f_["r"](t0_))).tolist()
+            b2["omega"] = (gen.quat_to_R(np.array(b2["P"])).T @ om_).tolist()
+        spec["bodies"] = [b1, b2]
         spec["joint"] = {"type": "Revolute", "axis": draw(st.integers(0, 2)),
                          "angle0": draw(st.sampled_from([0.0, None, None])) or draw(gen.f(-6.2, 6.2)),
                          "r_OJ0": [draw(gen.f(-1, 1)) for _ in range(3)] if draw(st.booleans()) else None,
@@ -168,8 +181,12 @@ def check(spec):
     k = spec["element"]["k"]
     l0 = abs(float(inter.l(t0, q0[inter.qDOF])))
     tol = 1e-10 * k * (1 + l0)
+    # the element's own generalized force (the bodies' gyroscopic forces are not the element's; they are non-zero when
+    # body 2 co-rotates with a turning frame)
     h = system.h(t0, q0, u0)
-    # remove the gyroscopic part (u0 = 0 so it vanishes anyway)
+    for c_ in system.contributions:
+        if c_ is not el and hasattr(c_, "h") and callable(getattr(c_, "h")) and hasattr(c_, "uDOF") and hasattr(c_, "qDOF"):
+            h[c_.uDOF] -= c_.h(t0, q0[c_.qDOF], u0[c_.uDOF])
     res.ok()
     if np.max(np.abs(h)) > tol:
         res.fail("zero_force", site, float(np.max(np.abs(h))), feats)
